@@ -2,6 +2,8 @@
 
 use crate::chan::adapt::Flavour;
 use crate::chan::gen::{ConcFamily, ConcProfile};
+use crate::chan::spmc::SpmcFamily;
+use crate::chan::topic::TopicFamily;
 use crate::core::batch::{Family, Violation};
 use crate::core::check::{lane, CheckSpec};
 use serde_json::Value;
@@ -17,6 +19,14 @@ const CHAN_ASSUME: &[&str] = &[
   "scheduling points are the facade's atomics, Mutex, park/unpark, yield and spin hints; code between two of them runs atomically",
   "bounds: <= 3 producers x <= 10 tokens, <= 3 consumers, capacities {1,2,3,4,5,8}",
 ];
+
+fn spmc(faults: bool, asyncness: u8, cancel: bool, lifecycle: bool) -> SpmcFamily {
+  SpmcFamily { faults, asyncness, cancel, lifecycle }
+}
+
+fn topic(faults: bool, asyncness: u8, cancel: bool, lifecycle: bool, dynamic_subs: bool) -> TopicFamily {
+  TopicFamily { faults, asyncness, cancel, lifecycle, dynamic_subs }
+}
 
 pub fn check_spec(id: &str) -> Option<CheckSpec> {
   let assumptions: Vec<String> = CHAN_ASSUME.iter().map(|s| s.to_string()).collect();
@@ -58,6 +68,8 @@ pub fn check_spec(id: &str) -> Option<CheckSpec> {
       lanes: vec![
         lane("conc/lifecycle", conc("lifecycle", |p| { p.hold_open_pct = 10; }), 300_000, 9_000_000),
         lane("conc/lifecycle/no-faults", conc("lifecycle-nf", |p| { p.hold_open_pct = 10; p.faults = false; }), 150_000, 4_500_000),
+        lane("spmc/lifecycle", spmc(true, 2, true, true), 100_000, 3_000_000),
+        lane("topic/lifecycle", topic(true, 2, true, true, true), 30_000, 1_000_000),
       ],
       assumptions,
       notes: vec![],
@@ -68,6 +80,8 @@ pub fn check_spec(id: &str) -> Option<CheckSpec> {
       lanes: vec![
         lane("conc/sync/liveness", conc("sync-live", |p| { p.asyncness = 0; p.cancel = false; p.hold_open_pct = 60; }), 400_000, 12_000_000),
         lane("conc/sync/liveness/no-faults", conc("sync-live-nf", |p| { p.asyncness = 0; p.cancel = false; p.hold_open_pct = 60; p.faults = false; }), 200_000, 6_000_000),
+        lane("spmc/sync/liveness", spmc(true, 0, false, true), 150_000, 4_500_000),
+        lane("topic/sync/liveness", topic(true, 0, false, true, true), 100_000, 3_000_000),
       ],
       assumptions,
       notes: vec![],
@@ -78,6 +92,9 @@ pub fn check_spec(id: &str) -> Option<CheckSpec> {
       lanes: vec![
         lane("conc/async/liveness", conc("async-live", |p| { p.asyncness = 1; p.timed = false; p.hold_open_pct = 60; }), 300_000, 9_000_000),
         lane("conc/mixed/liveness", conc("mixed-live", |p| { p.asyncness = 2; p.hold_open_pct = 60; }), 300_000, 9_000_000),
+        lane("spmc/async/liveness", spmc(true, 1, true, true), 100_000, 3_000_000),
+        lane("spmc/mixed/liveness", spmc(true, 2, true, true), 100_000, 3_000_000),
+        lane("topic/mixed/liveness", topic(true, 2, true, true, true), 30_000, 1_000_000),
       ],
       assumptions,
       notes: vec![],
@@ -87,9 +104,35 @@ pub fn check_spec(id: &str) -> Option<CheckSpec> {
       level: "exploration",
       lanes: vec![
         lane("conc/teardown", conc("teardown", |_| {}), 300_000, 9_000_000),
+        lane("spmc/teardown", spmc(true, 2, true, true), 100_000, 3_000_000),
+        lane("topic/teardown", topic(true, 2, true, true, true), 30_000, 1_000_000),
       ],
       assumptions,
       notes: vec![],
+    },
+    "C07" => CheckSpec {
+      property: id.into(),
+      level: "exploration",
+      lanes: vec![
+        lane("spmc/mixed/faults", spmc(true, 2, true, true), 300_000, 9_000_000),
+        lane("spmc/mixed/no-faults", spmc(false, 2, true, true), 150_000, 4_500_000),
+        lane("spmc/sync", spmc(true, 0, false, true), 150_000, 4_500_000),
+        lane("spmc/no-cancel/no-lifecycle", spmc(true, 2, false, false), 150_000, 4_500_000),
+      ],
+      assumptions,
+      notes: vec!["usage restriction: one thread drives a given receiver handle at a time".into()],
+    },
+    "C08" => CheckSpec {
+      property: id.into(),
+      level: "exploration",
+      lanes: vec![
+        lane("topic/mixed/faults", topic(true, 2, true, true, true), 300_000, 9_000_000),
+        lane("topic/mixed/no-faults", topic(false, 2, true, true, true), 150_000, 4_500_000),
+        lane("topic/sync/static-subs", topic(true, 0, false, false, false), 150_000, 4_500_000),
+        lane("topic/async/no-cancel", topic(true, 1, false, true, true), 150_000, 4_500_000),
+      ],
+      assumptions,
+      notes: vec!["papaya::HashMap runs uninstrumented (atomically between scheduling points)".into()],
     },
     _ => return None,
   };
@@ -120,6 +163,8 @@ pub fn replay(path: &str) -> i32 {
   let fam = v["family"].as_str().unwrap_or("");
   let res = match fam {
     "CH-CONC" => run_family_replay(conc("replay", |_| {}), &v),
+    "CH-SPMC" => run_family_replay(spmc(true, 2, true, true), &v),
+    "CH-TOPIC" => run_family_replay(topic(true, 2, true, true, true), &v),
     _ => Err(format!("unknown family {fam}")),
   };
   match res {
